@@ -289,6 +289,22 @@ def dateadd_date_cast(expression: exp.Expression) -> exp.Expression:
     )
 
 
+def dateadd_quarter(expression: exp.Expression) -> exp.Expression:
+    """Add quarters as 3 months each, rather than the 90 days they'd otherwise be converted to."""
+    if (
+        isinstance(expression, exp.DateAdd)
+        and expression.unit is not None
+        and isinstance(expression.unit.this, str)
+        and expression.unit.this.upper() == "QUARTER"
+    ):
+        new = expression.copy()
+        new.set("expression", exp.Mul(this=exp.Literal.number(3), expression=exp.Paren(this=expression.expression)))
+        new.set("unit", exp.Var(this="MONTH"))
+        return new
+
+    return expression
+
+
 def dateadd_string_literal_timestamp_cast(expression: exp.Expression) -> exp.Expression:
     """Snowflake's DATEADD function implicitly casts string literals to
     timestamps regardless of unit.
